@@ -12,12 +12,16 @@
 //! processes (`--worker`), one per shard, with RLIMIT_AS set: an input that kills or hangs a worker (alloc bomb,
 //! abort: judged by C02) is skipped with an observation and the shard is resumed behind it.
 
+#[path = "c08/extra.rs"]
+mod extra;
 #[path = "c08/fmts.rs"]
 mod fmts;
 #[path = "c08/mutate.rs"]
 mod mutate;
 #[path = "c08/seeds.rs"]
 mod seeds;
+#[path = "c08/values.rs"]
+mod values;
 
 use fmts::{FORMAT_NAMES, Fmt, candidate_keys, is_text};
 use seeds::Seed;
@@ -78,20 +82,47 @@ struct Drive {
     status: Status,
     viols: Vec<Viol>,
     b1: Option<Vec<u8>>,
+    /// observation counters of the extension sub-checks (which operations were exercised on this input)
+    obs: BTreeMap<String, u64>,
 }
 
-/// The oracle for one input.
-fn drive<F: Fmt>(x: &[u8]) -> Drive {
+/// `CascFormat::verify_round_trip` must say exactly "parse and build succeed and give the input back".
+fn verify_agrees<F: Fmt>(x: &[u8], expected_ok: bool, rejected: bool, viols: &mut Vec<Viol>, obs: &mut BTreeMap<String, u64>) {
+    match catch_unwind(AssertUnwindSafe(|| F::verify_(x))) {
+        Ok(None) => {}
+        Ok(Some(says)) => {
+            *obs.entry(format!("x.verify_round_trip.{}", if rejected { "on_rejected" } else if says { "ok" } else { "err" })).or_insert(0) += 1;
+            if says != expected_ok {
+                let class = if rejected { "ok-on-rejected-input" } else if says { "ok-but-rebuild-differs" } else { "err-but-rebuild-identical" };
+                viols.push(Viol { relation: "verify_round_trip-disagrees", class: class.into(), detail: json!({"verify_round_trip_ok": says}) });
+            }
+        }
+        Err(_) => {
+            let site = take_panic();
+            // a parser panic is C02's subject: only a panic on an input parse() survived is reported here
+            if !rejected {
+                viols.push(Viol { relation: "verify_round_trip-disagrees", class: format!("panic:{site}"), detail: json!({"panic": site}) });
+            }
+        }
+    }
+}
+
+/// The oracle for one input. `canonical`: an unmutated fixture / builder output offered to its own format.
+fn drive<F: Fmt>(x: &[u8], canonical: bool) -> Drive {
     let mut viols = Vec::new();
+    let mut obs = BTreeMap::new();
     let p0 = match catch_unwind(AssertUnwindSafe(|| F::parse_(x))) {
         Err(_) => {
             let _ = take_panic();
-            return Drive { status: Status::ParsePanicked, viols, b1: None };
+            return Drive { status: Status::ParsePanicked, viols, b1: None, obs };
         }
-        Ok(Err(_)) => return Drive { status: Status::Rejected, viols, b1: None },
+        Ok(Err(_)) => {
+            verify_agrees::<F>(x, false, true, &mut viols, &mut obs);
+            return Drive { status: if viols.is_empty() { Status::Rejected } else { Status::Accepted }, viols, b1: None, obs };
+        }
         Ok(Ok(v)) => v,
     };
-    let acc = |viols: Vec<Viol>, b1: Option<Vec<u8>>| Drive { status: Status::Accepted, viols, b1 };
+    let acc = |viols: Vec<Viol>, b1: Option<Vec<u8>>| Drive { status: Status::Accepted, viols, b1, obs: BTreeMap::new() };
     let b1 = match catch_unwind(AssertUnwindSafe(|| p0.build_())) {
         Err(_) => {
             let site = take_panic();
@@ -121,9 +152,9 @@ fn drive<F: Fmt>(x: &[u8]) -> Drive {
     match catch_unwind(AssertUnwindSafe(|| p1.build_())) {
         Err(_) => {
             let site = take_panic();
-            viols.push(Viol { relation: "not-fixed-point", class: format!("second-build-panics:{site}"), detail: json!({"panic": site}) });
+            viols.push(Viol { relation: "not-fixed-point", class: with_cause(format!("second-build-panics:{site}")), detail: json!({"panic": site}) });
         }
-        Ok(Err(e)) => viols.push(Viol { relation: "not-fixed-point", class: format!("second-build-fails:{}", err_class(&e)), detail: json!({"error": e.chars().take(300).collect::<String>()}) }),
+        Ok(Err(e)) => viols.push(Viol { relation: "not-fixed-point", class: with_cause(format!("second-build-fails:{}", err_class(&e))), detail: json!({"error": e.chars().take(300).collect::<String>()}) }),
         Ok(Ok(b2)) => {
             if b2 != b1 {
                 let first = b1.iter().zip(&b2).position(|(a, b)| a != b).unwrap_or(b1.len().min(b2.len()));
@@ -144,7 +175,20 @@ fn drive<F: Fmt>(x: &[u8]) -> Drive {
             viols.push(Viol { relation: "logical-content-changed", class: with_cause((*name).to_string()), detail: json!({"component": name, "b1_len": b1.len(), "b1": hex_short(&b1, 256)}) });
         }
     }
-    acc(viols, Some(b1))
+    // extension sub-checks run on inputs the main oracle has nothing to say about (no cascades on a listed finding):
+    // every canonical input, a third of the mutated ones (they more than double the cost of an input)
+    if viols.is_empty() && (canonical || fnv64(x) % 3 == 0) {
+        verify_agrees::<F>(x, b1.as_slice() == x, false, &mut viols, &mut obs);
+        let mut out = extra::Out::default();
+        extra::run(F::NAME, x, &b1, canonical, &mut out);
+        for v in out.viols {
+            viols.push(Viol { relation: v.relation, class: v.class, detail: v.detail });
+        }
+        for (k, v) in out.obs {
+            *obs.entry(k).or_insert(0) += v;
+        }
+    }
+    Drive { status: Status::Accepted, viols, b1: Some(b1), obs }
 }
 
 fn dump<F: Fmt>(x: &[u8]) -> String {
@@ -159,8 +203,8 @@ fn dump_named(name: &str, x: &[u8]) -> String {
     with_format!(name, dump, x)
 }
 
-fn drive_named(name: &str, x: &[u8]) -> Drive {
-    with_format!(name, drive, x)
+fn drive_named(name: &str, x: &[u8], canonical: bool) -> Drive {
+    with_format!(name, drive, x, canonical)
 }
 
 // ------------------------------------------------------------------------------------------------ plan
@@ -228,6 +272,7 @@ fn make_input(seed_val: u64, seeds: &[Seed], e: Entry) -> (Vec<u8>, &'static str
 fn all_seeds(seed_val: u64) -> (Vec<Seed>, usize, Vec<String>) {
     let (mut seeds, found, unattributed) = seeds::load_fixtures();
     seeds.extend(seeds::builder_seeds(seed_val));
+    seeds.extend(values::extension_seeds(seed_val));
     (seeds, found, unattributed)
 }
 
@@ -243,6 +288,12 @@ fn summary(relation: &str) -> &'static str {
         "not-fixed-point" => "build(parse(build(parse(x)))) differs from build(parse(x))",
         "logical-content-changed" => "logical content of parse(x) and parse(build(parse(x))) differs",
         "fixture-not-byte-exact" => "an unmutated real fixture does not round-trip to identical bytes",
+        "verify_round_trip-disagrees" => "verify_round_trip(x) does not say what parse + build + compare say about x",
+        "alt-entry-differs" => "an alternative reader / writer of the same format does not agree with parse / build on an accepted input",
+        "builder-rebuild-changed" => "a builder created from a parsed value (from_*) does not reproduce its logical content",
+        "builder-rebuild-fails" => "a builder created from a canonical parsed value (from_*) cannot build it",
+        "builder-edit-wrong" => "a remove/add program on a builder created from a parsed value does not yield the model's content",
+        "derived-view-changed" => "an accessor that is a function of the logical content differs between parse(x) and parse(build(parse(x)))",
         _ => "builder-produced value does not parse back to the same logical content",
     }
 }
@@ -307,8 +358,11 @@ fn worker_main(args: &[String]) -> ! {
         PROGRESS.fetch_add(1, Ordering::Relaxed);
         let fname = FORMAT_NAMES[e.fmt];
         let (x, kind) = make_input(seed_val, &seeds, *e);
-        let d = drive_named(fname, &x);
         let cross = seeds[e.seed].format != fname;
+        let d = drive_named(fname, &x, e.mutation == 0 && !cross);
+        for (k, v) in &d.obs {
+            *counters.entry(k.clone()).or_insert(0) += v;
+        }
         match d.status {
             Status::Rejected => *counters.entry(format!("{fname}.rejected")).or_insert(0) += 1,
             Status::ParsePanicked => *counters.entry(format!("{fname}.parse_panicked_skipped")).or_insert(0) += 1,
@@ -455,8 +509,11 @@ fn run_workers(ctx: &Ctx, seeds: &[Seed]) {
 
 fn check_fixtures(ctx: &Ctx, seeds: &[Seed]) {
     for s in seeds.iter().filter(|s| s.fixture) {
-        let d = drive_named(s.format, &s.bytes);
+        let d = drive_named(s.format, &s.bytes, true);
         ctx.eval();
+        for (k, v) in &d.obs {
+            ctx.obs(k, *v);
+        }
         match d.status {
             Status::Accepted => {
                 ctx.obs(&format!("fixtures.{}.accepted", s.format), 1);
@@ -488,15 +545,29 @@ fn check_fixtures(ctx: &Ctx, seeds: &[Seed]) {
 
 /// value -> bytes -> parse: projections must agree.
 fn check_value<F: Fmt>(ctx: &Ctx, label: &str, value: &F) {
+    check_value_keys(ctx, label, value, &[]);
+}
+
+/// `extra_keys`: keys of a map-backed text config that were set through its API (a key the writer drops
+/// altogether does not show up among the candidate keys found in the serialisation).
+fn check_value_keys<F: Fmt>(ctx: &Ctx, label: &str, value: &F, extra_keys: &[String]) {
     ctx.eval_nontrivial(mix64(fnv64(b"builder-value"), fnv64(label.as_bytes())));
     ctx.obs(&format!("builder_values.{}", F::NAME), 1);
     let r = catch_unwind(AssertUnwindSafe(|| -> Result<(), Viol> {
         let bytes = value.build_().map_err(|e| Viol { relation: "builder-value-changed", class: format!("build-fails:{}", err_class(&e)), detail: json!({"error": e}) })?;
         let parsed = F::parse_(&bytes).map_err(|e| Viol { relation: "builder-value-changed", class: format!("parse-fails:{}", err_class(&e)), detail: json!({"error": e, "bytes": hex_short(&bytes, 128)}) })?;
-        let keys = if F::TEXT { candidate_keys(&[&bytes]) } else { Vec::new() };
+        let mut keys = if F::TEXT { candidate_keys(&[&bytes]) } else { Vec::new() };
+        keys.extend(extra_keys.iter().cloned());
+        keys.sort();
+        keys.dedup();
         let (a, b) = (value.project(&keys), parsed.project(&keys));
         if let Some(((name, _), _)) = a.iter().zip(&b).find(|(x, y)| x != y) {
-            return Err(Viol { relation: "builder-value-changed", class: (*name).to_string(), detail: json!({"component": name, "bytes_len": bytes.len()}) });
+            return Err(Viol { relation: "builder-value-changed", class: (*name).to_string(), detail: json!({"component": name, "bytes_len": bytes.len(), "bytes": if F::TEXT { String::from_utf8_lossy(&bytes).chars().take(400).collect::<String>() } else { hex_short(&bytes, 64) }}) });
+        }
+        // the second serialisation of a builder value is the first one
+        let again = parsed.build_().map_err(|e| Viol { relation: "builder-value-changed", class: format!("second-build-fails:{}", err_class(&e)), detail: json!({"error": e}) })?;
+        if again != bytes {
+            return Err(Viol { relation: "builder-value-changed", class: "not-fixed-point".into(), detail: json!({"first_len": bytes.len(), "second_len": again.len()}) });
         }
         Ok(())
     }));
@@ -506,6 +577,43 @@ fn check_value<F: Fmt>(ctx: &Ctx, label: &str, value: &F) {
         Err(_) => {
             let site = take_panic();
             report(ctx, &format!("C08|{}|builder-value-changed|panic:{site}", F::NAME), "builder-value-changed", json!({"format": F::NAME, "builder_value": label, "panic": site}));
+        }
+    }
+}
+
+/// Real BLTE-framed TVFS manifests: `TvfsFile::load_from_blte` must give the content of the plain manifest
+/// stored next to them (and of parsing the decoded payload).
+fn check_tvfs_blte_fixtures(ctx: &Ctx, seeds: &[Seed]) {
+    use cascette_formats::tvfs::TvfsFile;
+    for s in seeds.iter().filter(|s| s.fixture && s.format == "BlteFile" && s.name.starts_with("tvfs/") && s.name.ends_with(".blte")) {
+        ctx.eval();
+        let plain_name = s.name.replace(".blte", ".bin");
+        let plain = seeds.iter().find(|p| p.name == plain_name);
+        let r = catch_unwind(AssertUnwindSafe(|| -> Option<String> {
+            let loaded = match TvfsFile::load_from_blte(&s.bytes) {
+                Ok(l) => l,
+                Err(e) => return Some(format!("load_from_blte:fails-on-real-file:{}", err_class(&format!("{e:?}")))),
+            };
+            ctx.obs("fixtures.tvfs_blte.load_from_blte_ok", 1);
+            if let Some(p) = plain {
+                match TvfsFile::parse(&p.bytes) {
+                    Ok(q) => {
+                        ctx.obs("fixtures.tvfs_blte.compared_with_plain_manifest", 1);
+                        if let Some(((n, _), _)) = loaded.project(&[]).iter().zip(&q.project(&[])).find(|(a, b)| a != b) {
+                            return Some(format!("load_from_blte:content-differs-from-plain-manifest:{n}"));
+                        }
+                    }
+                    Err(_) => ctx.obs("fixtures.tvfs_blte.plain_manifest_rejected", 1),
+                }
+            }
+            None
+        }));
+        let class = match r {
+            Ok(c) => c,
+            Err(_) => Some(format!("load_from_blte:panic:{}", take_panic())),
+        };
+        if let Some(class) = class {
+            report(ctx, &format!("C08|TvfsFile|alt-entry-differs|{class}"), "alt-entry-differs", json!({"format": "TvfsFile", "seed_name": s.name, "fixture": true, "mutation": 0}));
         }
     }
 }
@@ -565,6 +673,7 @@ fn replay(ctx: &Ctx, detail: &Value) {
     };
     if detail.get("builder_value").is_some() {
         check_builder_values(ctx);
+        values::run(ctx);
         return;
     }
     let (seeds, _, _) = all_seeds(ctx.seed);
@@ -576,9 +685,11 @@ fn replay(ctx: &Ctx, detail: &Value) {
     };
     if mutation == 0 && seeds[si].fixture && seeds[si].format == *fname {
         check_fixtures(ctx, &seeds[si..=si]);
+    } else if mutation == 0 && seeds[si].fixture && *fname == "TvfsFile" && name.ends_with(".blte") {
+        check_tvfs_blte_fixtures(ctx, &seeds);
     } else {
         let (x, _) = make_input(ctx.seed, &seeds, Entry { fmt: fmt_index(fname), seed: si, mutation });
-        let d = drive_named(fname, &x);
+        let d = drive_named(fname, &x, mutation == 0 && seeds[si].format == *fname);
         if let Ok(dir) = std::env::var("C08_DUMP") {
             let _ = std::fs::create_dir_all(&dir);
             let _ = std::fs::write(format!("{dir}/x.bin"), &x);
@@ -605,6 +716,7 @@ fn main() {
     let ctx = Ctx::init("C08", "exploration");
     ctx.set_rule("a case is one input offered to one format parser: an unmutated fixture, a builder output, or a mutation of one (bit flips, interesting 8/16/24/32-bit values BE/LE and field+-1 in the first 256 / last 64 bytes, truncation, splice, duplicated/deleted region, append; line edits for text formats); only accepted inputs are judged; non-trivial = accepted, mutated and different from every fixture; distinct by hash of (format, input bytes)");
     ctx.assume("logical content is compared through harness-written projections over public fields / accessors (entries, keys, sizes, flags, tags, versions), not through raw-byte caches kept for exact rebuild");
+    ctx.assume("extension sub-checks (verify_round_trip, alternative readers/writers, from_* builder identity + remove/add programs against a set model, derived views) run on every canonical input and on a third of the mutated accepted inputs that the main oracle found clean");
     ctx.assume("inputs on which a parser panics, or on which the worker process dies / hangs (allocation bomb, abort), are skipped with an observation: they are judged by C02");
     install_panic_hook();
     if let Some(detail) = ctx.replay_detail() {
@@ -627,11 +739,26 @@ fn main() {
         ctx.finish();
     }
     check_fixtures(&ctx, &seeds);
+    check_tvfs_blte_fixtures(&ctx, &seeds);
     check_builder_values(&ctx);
+    values::run(&ctx);
     run_workers(&ctx, &seeds);
     for f in FORMAT_NAMES {
         if ctx.get_obs(&format!("{f}.accepted")) == 0 {
             ctx.inconclusive(&format!("no accepted input was observed for format {f}"));
+        }
+    }
+    // the extension sub-checks are relied upon: a run in which one of them never executed proves nothing about it
+    for k in [
+        "x.verify_round_trip.ok", "x.verify_round_trip.err", "x.verify_round_trip.on_rejected", "x.install.inherent_verify_round_trip", "x.encoding.build_blte+parse_blte", "x.encoding.from_encoding_file",
+        "x.encoding.builder_edit", "x.archive_index.write_to", "x.archive_index.chunked_open", "x.archive_index.from_archive_index", "x.archive_index.builder_edit", "x.root.from_root_file", "x.root.builder_edit",
+        "x.root.header_write_read.tsfm", "x.root.header_write_read.mfst", "x.install.from_manifest", "x.install.builder_edit", "x.download.from_manifest", "x.download.builder_edit", "x.tvfs.load_from_blte.single-zlib",
+        "x.tvfs.load_from_blte.multi-none", "x.tvfs.views", "x.bpsv.writer", "x.product_config.build_compact", "x.espec.free_parse+validate", "x.build_config.typed_views.valid_config", "x.cdn_config.typed_views",
+        "x.patch_archive.views", "x.patch_index.views", "x.zbsdiff.views", "fixtures.tvfs_blte.compared_with_plain_manifest", "builder_programs.RootFile", "builder_programs.PatchIndex", "builder_programs.ArchiveIndex",
+        "builder_values.BuildConfig", "builder_values.CdnConfig", "builder_values.PatchConfig", "builder_values.KeyringConfig", "builder_values.BpsvDocument", "builder_values.ESpec",
+    ] {
+        if ctx.get_obs(k) == 0 {
+            ctx.inconclusive(&format!("extension sub-check never ran: {k}"));
         }
     }
     let mut table = BTreeMap::new();
